@@ -10,173 +10,183 @@ use vh_lite::{read_cases, drive, drive_group, quiet_panics, Out};
 
 mod tc_right__ser;
 mod tc_left__to;
-mod tc_left__redecl;
-mod tc_left__str;
-mod tc_nonlin__perm1;
-mod mutual__par;
-mod mutual__src1;
-mod mutual__ren;
-mod scc_chain__to;
-mod scc_chain__strpar;
-mod repeated__par;
-mod repeated__strpar;
-mod three_dyn__ren;
-mod conds__ser;
-mod conds__src2;
-mod conds__permpar;
-mod count_up__topar;
-mod multi_head__ren;
-mod facts__src0;
-mod facts__perm2;
-mod opt_cols__pari;
-mod opt_cols__init;
-mod same_gen__pari;
-mod same_gen__u64;
-mod two_inputs__to;
-mod two_inputs__redecl;
-mod two_inputs__str;
-mod ternary__pari;
-mod bound_mix__ser;
-mod bound_mix__u64;
-mod join_chain__permpar;
-mod reach__par;
-mod self_join3__par;
-mod lag_right__perm2;
-mod lag_left__pari;
-mod lag_mid__ser;
-mod lag_mid__u64;
-mod sp_dual__par;
-mod sp_dual__src1;
-mod sp_dual__ren;
-mod longest_capped__par;
-mod set_reach__topar;
-mod set_reach__init;
-mod cp__ser;
-mod lex_lat__ser;
-mod lat_two_keys__pari;
-mod lat_val_bound__pari;
-mod count_paths__gen;
+mod tc_left__srcto;
+mod tc_left__permpar;
+mod tc_nonlin__topar;
+mod mutual__ser;
+mod mutual__src0;
+mod mutual__perm1;
+mod scc_chain__par;
+mod scc_chain__str;
+mod consts__pari;
+mod repeated__str;
+mod three_dyn__perm1;
+mod four_dyn__par;
+mod conds__src0;
+mod conds__perm1;
+mod count_up__par;
+mod multi_head__topar;
+mod facts__run;
+mod facts__init;
+mod facts__u64;
+mod opt_cols__src0;
+mod cartesian__ser;
+mod same_gen__perm1;
+mod not_reorderable__par;
+mod two_inputs__mrt;
+mod two_inputs__runpar;
+mod two_inputs__strpar;
+mod ternary__perm2;
+mod bound_mix__pari;
+mod join_chain__ser;
+mod join_chain__u64;
+mod reach__to;
+mod lag_right__ser;
+mod lag_right__permpar;
+mod lag_left__topar;
+mod lag_mid__pari;
+mod lag_late_delta__ser;
+mod multi_head_rec__to;
+mod sp_dual__topar;
+mod sp_dual__redecl;
+mod sp_weighted__ser;
+mod longest_capped__to;
+mod set_reach__mrt;
+mod set_reach__runpar;
+mod cp__par;
+mod lex_lat__par;
+mod lat_multi_improve__ser;
+mod lat_input__ser;
+mod lat_input__src0;
+mod count_paths__ser;
+mod count_paths__src0;
 mod neg_basic__ser;
 mod neg_basic__src0;
-mod neg_basic__perm2;
-mod agg_depth__ser;
-mod agg_lattice__to;
-mod neg_rec_after__exp;
-mod agg_empty__to;
-mod agg_const_args__par;
-mod disj__topar;
-mod disj__init;
-mod disj__exppar;
-mod pat_args__pari;
-mod multi_head_disj__ser;
-mod neg_in_disj__exp;
-mod mac_basic__mrt;
-mod mac_basic__srcpar;
-mod mac_nested__ser;
-mod mac_gensym_disj__exp;
-mod rnd_core_01__par;
-mod rnd_core_04__ser;
-mod rnd_core_06__pari;
-mod rnd_core_09__par;
-mod rnd_core_12__ser;
-mod rnd_core_14__pari;
-mod rnd_core_17__par;
-mod rnd_core_20__ser;
-mod rnd_core_22__pari;
-mod rnd_core_25__par;
-mod rnd_core_28__ser;
-mod rnd_core_30__pari;
-mod rnd_agg_03__par;
-mod rnd_agg_06__ser;
-mod rnd_agg_08__pari;
-mod rnd_agg_11__par;
-mod rnd_agg_14__ser;
+mod neg_basic__perm1;
+mod agg_minmaxsum__pari;
+mod agg_lattice__pari;
+mod neg_rec_after__pari;
+mod agg_empty__pari;
+mod agg_const_args__ser;
+mod disj__to;
+mod disj__srcto;
+mod disj__permpar;
+mod pat_args__ser;
+mod rep_expr__exp;
+mod neg_in_disj__par;
+mod mac_basic__topar;
+mod mac_basic__redecl;
+mod mac_capture__pari;
+mod mac_gensym_disj__ser;
+mod mac_disj__exp;
+mod rnd_core_03__ser;
+mod rnd_core_05__pari;
+mod rnd_core_08__par;
+mod rnd_core_11__ser;
+mod rnd_core_13__pari;
+mod rnd_core_16__par;
+mod rnd_core_19__ser;
+mod rnd_core_21__pari;
+mod rnd_core_24__par;
+mod rnd_core_27__ser;
+mod rnd_core_29__pari;
+mod rnd_agg_02__par;
+mod rnd_agg_05__ser;
+mod rnd_agg_07__pari;
+mod rnd_agg_10__par;
+mod rnd_agg_13__ser;
+mod rnd_agg_15__pari;
 
 fn lookup(name: &str) -> fn() -> Box<dyn Driven> {
    match name {
       "tc_right__ser" => tc_right__ser::make,
       "tc_left__to" => tc_left__to::make,
-      "tc_left__redecl" => tc_left__redecl::make,
-      "tc_left__str" => tc_left__str::make,
-      "tc_nonlin__perm1" => tc_nonlin__perm1::make,
-      "mutual__par" => mutual__par::make,
-      "mutual__src1" => mutual__src1::make,
-      "mutual__ren" => mutual__ren::make,
-      "scc_chain__to" => scc_chain__to::make,
-      "scc_chain__strpar" => scc_chain__strpar::make,
-      "repeated__par" => repeated__par::make,
-      "repeated__strpar" => repeated__strpar::make,
-      "three_dyn__ren" => three_dyn__ren::make,
-      "conds__ser" => conds__ser::make,
-      "conds__src2" => conds__src2::make,
-      "conds__permpar" => conds__permpar::make,
-      "count_up__topar" => count_up__topar::make,
-      "multi_head__ren" => multi_head__ren::make,
-      "facts__src0" => facts__src0::make,
-      "facts__perm2" => facts__perm2::make,
-      "opt_cols__pari" => opt_cols__pari::make,
-      "opt_cols__init" => opt_cols__init::make,
-      "same_gen__pari" => same_gen__pari::make,
-      "same_gen__u64" => same_gen__u64::make,
-      "two_inputs__to" => two_inputs__to::make,
-      "two_inputs__redecl" => two_inputs__redecl::make,
-      "two_inputs__str" => two_inputs__str::make,
-      "ternary__pari" => ternary__pari::make,
-      "bound_mix__ser" => bound_mix__ser::make,
-      "bound_mix__u64" => bound_mix__u64::make,
-      "join_chain__permpar" => join_chain__permpar::make,
-      "reach__par" => reach__par::make,
-      "self_join3__par" => self_join3__par::make,
-      "lag_right__perm2" => lag_right__perm2::make,
-      "lag_left__pari" => lag_left__pari::make,
-      "lag_mid__ser" => lag_mid__ser::make,
-      "lag_mid__u64" => lag_mid__u64::make,
-      "sp_dual__par" => sp_dual__par::make,
-      "sp_dual__src1" => sp_dual__src1::make,
-      "sp_dual__ren" => sp_dual__ren::make,
-      "longest_capped__par" => longest_capped__par::make,
-      "set_reach__topar" => set_reach__topar::make,
-      "set_reach__init" => set_reach__init::make,
-      "cp__ser" => cp__ser::make,
-      "lex_lat__ser" => lex_lat__ser::make,
-      "lat_two_keys__pari" => lat_two_keys__pari::make,
-      "lat_val_bound__pari" => lat_val_bound__pari::make,
-      "count_paths__gen" => count_paths__gen::make,
+      "tc_left__srcto" => tc_left__srcto::make,
+      "tc_left__permpar" => tc_left__permpar::make,
+      "tc_nonlin__topar" => tc_nonlin__topar::make,
+      "mutual__ser" => mutual__ser::make,
+      "mutual__src0" => mutual__src0::make,
+      "mutual__perm1" => mutual__perm1::make,
+      "scc_chain__par" => scc_chain__par::make,
+      "scc_chain__str" => scc_chain__str::make,
+      "consts__pari" => consts__pari::make,
+      "repeated__str" => repeated__str::make,
+      "three_dyn__perm1" => three_dyn__perm1::make,
+      "four_dyn__par" => four_dyn__par::make,
+      "conds__src0" => conds__src0::make,
+      "conds__perm1" => conds__perm1::make,
+      "count_up__par" => count_up__par::make,
+      "multi_head__topar" => multi_head__topar::make,
+      "facts__run" => facts__run::make,
+      "facts__init" => facts__init::make,
+      "facts__u64" => facts__u64::make,
+      "opt_cols__src0" => opt_cols__src0::make,
+      "cartesian__ser" => cartesian__ser::make,
+      "same_gen__perm1" => same_gen__perm1::make,
+      "not_reorderable__par" => not_reorderable__par::make,
+      "two_inputs__mrt" => two_inputs__mrt::make,
+      "two_inputs__runpar" => two_inputs__runpar::make,
+      "two_inputs__strpar" => two_inputs__strpar::make,
+      "ternary__perm2" => ternary__perm2::make,
+      "bound_mix__pari" => bound_mix__pari::make,
+      "join_chain__ser" => join_chain__ser::make,
+      "join_chain__u64" => join_chain__u64::make,
+      "reach__to" => reach__to::make,
+      "lag_right__ser" => lag_right__ser::make,
+      "lag_right__permpar" => lag_right__permpar::make,
+      "lag_left__topar" => lag_left__topar::make,
+      "lag_mid__pari" => lag_mid__pari::make,
+      "lag_late_delta__ser" => lag_late_delta__ser::make,
+      "multi_head_rec__to" => multi_head_rec__to::make,
+      "sp_dual__topar" => sp_dual__topar::make,
+      "sp_dual__redecl" => sp_dual__redecl::make,
+      "sp_weighted__ser" => sp_weighted__ser::make,
+      "longest_capped__to" => longest_capped__to::make,
+      "set_reach__mrt" => set_reach__mrt::make,
+      "set_reach__runpar" => set_reach__runpar::make,
+      "cp__par" => cp__par::make,
+      "lex_lat__par" => lex_lat__par::make,
+      "lat_multi_improve__ser" => lat_multi_improve__ser::make,
+      "lat_input__ser" => lat_input__ser::make,
+      "lat_input__src0" => lat_input__src0::make,
+      "count_paths__ser" => count_paths__ser::make,
+      "count_paths__src0" => count_paths__src0::make,
       "neg_basic__ser" => neg_basic__ser::make,
       "neg_basic__src0" => neg_basic__src0::make,
-      "neg_basic__perm2" => neg_basic__perm2::make,
-      "agg_depth__ser" => agg_depth__ser::make,
-      "agg_lattice__to" => agg_lattice__to::make,
-      "neg_rec_after__exp" => neg_rec_after__exp::make,
-      "agg_empty__to" => agg_empty__to::make,
-      "agg_const_args__par" => agg_const_args__par::make,
-      "disj__topar" => disj__topar::make,
-      "disj__init" => disj__init::make,
-      "disj__exppar" => disj__exppar::make,
-      "pat_args__pari" => pat_args__pari::make,
-      "multi_head_disj__ser" => multi_head_disj__ser::make,
-      "neg_in_disj__exp" => neg_in_disj__exp::make,
-      "mac_basic__mrt" => mac_basic__mrt::make,
-      "mac_basic__srcpar" => mac_basic__srcpar::make,
-      "mac_nested__ser" => mac_nested__ser::make,
-      "mac_gensym_disj__exp" => mac_gensym_disj__exp::make,
-      "rnd_core_01__par" => rnd_core_01__par::make,
-      "rnd_core_04__ser" => rnd_core_04__ser::make,
-      "rnd_core_06__pari" => rnd_core_06__pari::make,
-      "rnd_core_09__par" => rnd_core_09__par::make,
-      "rnd_core_12__ser" => rnd_core_12__ser::make,
-      "rnd_core_14__pari" => rnd_core_14__pari::make,
-      "rnd_core_17__par" => rnd_core_17__par::make,
-      "rnd_core_20__ser" => rnd_core_20__ser::make,
-      "rnd_core_22__pari" => rnd_core_22__pari::make,
-      "rnd_core_25__par" => rnd_core_25__par::make,
-      "rnd_core_28__ser" => rnd_core_28__ser::make,
-      "rnd_core_30__pari" => rnd_core_30__pari::make,
-      "rnd_agg_03__par" => rnd_agg_03__par::make,
-      "rnd_agg_06__ser" => rnd_agg_06__ser::make,
-      "rnd_agg_08__pari" => rnd_agg_08__pari::make,
-      "rnd_agg_11__par" => rnd_agg_11__par::make,
-      "rnd_agg_14__ser" => rnd_agg_14__ser::make,
+      "neg_basic__perm1" => neg_basic__perm1::make,
+      "agg_minmaxsum__pari" => agg_minmaxsum__pari::make,
+      "agg_lattice__pari" => agg_lattice__pari::make,
+      "neg_rec_after__pari" => neg_rec_after__pari::make,
+      "agg_empty__pari" => agg_empty__pari::make,
+      "agg_const_args__ser" => agg_const_args__ser::make,
+      "disj__to" => disj__to::make,
+      "disj__srcto" => disj__srcto::make,
+      "disj__permpar" => disj__permpar::make,
+      "pat_args__ser" => pat_args__ser::make,
+      "rep_expr__exp" => rep_expr__exp::make,
+      "neg_in_disj__par" => neg_in_disj__par::make,
+      "mac_basic__topar" => mac_basic__topar::make,
+      "mac_basic__redecl" => mac_basic__redecl::make,
+      "mac_capture__pari" => mac_capture__pari::make,
+      "mac_gensym_disj__ser" => mac_gensym_disj__ser::make,
+      "mac_disj__exp" => mac_disj__exp::make,
+      "rnd_core_03__ser" => rnd_core_03__ser::make,
+      "rnd_core_05__pari" => rnd_core_05__pari::make,
+      "rnd_core_08__par" => rnd_core_08__par::make,
+      "rnd_core_11__ser" => rnd_core_11__ser::make,
+      "rnd_core_13__pari" => rnd_core_13__pari::make,
+      "rnd_core_16__par" => rnd_core_16__par::make,
+      "rnd_core_19__ser" => rnd_core_19__ser::make,
+      "rnd_core_21__pari" => rnd_core_21__pari::make,
+      "rnd_core_24__par" => rnd_core_24__par::make,
+      "rnd_core_27__ser" => rnd_core_27__ser::make,
+      "rnd_core_29__pari" => rnd_core_29__pari::make,
+      "rnd_agg_02__par" => rnd_agg_02__par::make,
+      "rnd_agg_05__ser" => rnd_agg_05__ser::make,
+      "rnd_agg_07__pari" => rnd_agg_07__pari::make,
+      "rnd_agg_10__par" => rnd_agg_10__par::make,
+      "rnd_agg_13__ser" => rnd_agg_13__ser::make,
+      "rnd_agg_15__pari" => rnd_agg_15__pari::make,
       _ => panic!("no such program variant in this shard: {}", name),
    }
 }
